@@ -613,3 +613,59 @@ def scc_three_rows(gap1: int, gap2: int, it1: bool, it2: bool, it3: bool, dbl: b
     """
     from harness.C05_scc import _three_rows
     return _three_rows(1 if gap1 == 1 else 2, 1 if gap2 == 1 else 2, it1, it2, it3, dbl)
+
+
+def _combo(c):
+    """1..7: bit 0 italics, bit 1 bold, bit 2 underline"""
+    d = {}
+    if c & 1:
+        d["italics"] = True
+    if c & 2:
+        d["bold"] = True
+    if c & 4:
+        d["underline"] = True
+    return d
+
+
+def sami_roundtrip_combo(c: int, lead: bool, trail: bool, brk: bool) -> str:
+    """
+    pre: 1 <= c <= 7
+    post: _ == ""
+    """
+    # one span carrying any combination of italics / bold / underline, written by the SAMI writer and read back
+    cc = 1 if c == 1 else (2 if c == 2 else (3 if c == 3 else (4 if c == 4 else (5 if c == 5 else (6 if c == 6 else 7)))))
+    st = _combo(cc)
+    f = (bool(cc & 1), bool(cc & 2), bool(cc & 4))
+    nodes, want = [], []
+    if lead:
+        nodes.append(CaptionNode.create_text("wa"))
+        want += [(ch, (False, False, False)) for ch in "wa"]
+    nodes.append(CaptionNode.create_style(True, dict(st)))
+    nodes.append(CaptionNode.create_text("wb"))
+    want += [(ch, f) for ch in "wb"]
+    if brk:
+        nodes.append(CaptionNode.create_break())
+        nodes.append(CaptionNode.create_text("wc"))
+        want += [(ch, f) for ch in "wc"]
+    nodes.append(CaptionNode.create_style(False, dict(st)))
+    if trail:
+        nodes.append(CaptionNode.create_text("wd"))
+        want += [(ch, (False, False, False)) for ch in "wd"]
+    frag = SAMIWriter()._recreate_text(nodes)
+    err, got = _scan(frag, "xml")
+    if err:
+        return err
+    r = _cmp(got, want, (0, 1, 2))
+    if r:
+        return "written markup: " + r
+    saved = sm.BeautifulSoup
+    sm.BeautifulSoup = _bs_html
+    try:
+        caps = SAMIReader().read(SAMI_DOC % frag).get_captions("en-US")
+    finally:
+        sm.BeautifulSoup = saved
+    if len(caps) != 1:
+        return "number of captions after SAMI -> SAMI"
+    if not _balanced(caps[0].nodes):
+        return "reader returned unbalanced style nodes"
+    return _cmp(_flags_of_nodes(caps[0].nodes), want, (0, 1, 2))
